@@ -1,7 +1,7 @@
 (* C09 - labels keep value and type end to end; per-call customisation never leaks. *)
 From Coq Require Import ZArith NArith List Bool.
 From Coq.Strings Require Import Byte.
-From TQ Require Import Base64 Base64Proofs Labels LabelsCodecProofs LabelsProofs.
+From TQ Require Import Base64 Base64Proofs Labels LabelsCodecProofs LabelsProofs LabelsLeakProofs.
 Import ListNotations.
 Open Scope N_scope.
 
@@ -57,7 +57,40 @@ Theorem C09_delivery : forall (sof : Z -> pstr) (fos : pstr -> option Z),
 Proof. exact delivery_primitive. Qed.
 Print Assumptions C09_delivery.
 
+(* per-call customisation never leaks: for every history of kicker()/with_labels/with_task_id/with_broker/kiq on any
+   number of tasks (declared labels = heap cells 0..n-1, shared by reference with every kicker created from the
+   task), the declared dicts are unchanged and the sends are exactly [spec_sent]: declared labels overlaid, in
+   order, with the with_labels of *that* kicker, its own last with_task_id (else a generated id) and its own last
+   with_broker (else the task's broker) - a function of the history that never looks at another kicker. *)
+Theorem C09_no_leak : forall (decl : list (dict lval)) (tb : list N) (ops : list kop) (st : kstate),
+  length tb = length decl ->
+  run_history decl tb ops = Some st ->
+  (forall t, (t < length decl)%nat -> nth_error (heap st) t = nth_error decl t)
+  /\ rev (out st) = spec_sent decl tb [] ops.
+Proof. exact no_leak. Qed.
+Print Assumptions C09_no_leak.
+
+(* ... and at every intermediate point of the history, not only at its end *)
+Theorem C09_no_leak_always : forall decl tb ops1 ops2 st,
+  length tb = length decl ->
+  run_history decl tb (ops1 ++ ops2) = Some st ->
+  exists st1, run_history decl tb ops1 = Some st1
+    /\ (forall t, (t < length decl)%nat -> nth_error (heap st1) t = nth_error decl t).
+Proof. exact no_leak_prefix. Qed.
+Print Assumptions C09_no_leak_always.
+
 (* non-vacuity *)
+Example C09_no_leak_nonvacuous :
+  let decl := [[(10, LInt 1%Z)]; []] in
+  let ops := [OKicker 0; OWithLabels 0 [(11, LStr [113])]; OKiq 0; OKicker 0; OKiq 1; OWithTaskId 0 7; OWithBroker 0 2;
+              OWithLabels 0 [(10, LBool true)]; OKiq 0; OKicker 1; OKiq 2] in
+  option_map (fun st => rev (out st)) (run_history decl [0; 1] ops)
+  = Some [mkSent 0 None 0 [(10, LInt 1%Z); (11, LStr [113])];
+          mkSent 0 None 0 [(10, LInt 1%Z)];
+          mkSent 0 (Some 7) 2 [(10, LBool true); (11, LStr [113])];
+          mkSent 1 None 1 []].
+Proof. vm_compute. reflexivity. Qed.
+
 Example C09_codec_nonvacuous :
   let sof := tab_sof [(9218868437227405312%Z, [105; 110; 102])] in
   let fos := tab_fos [([105; 110; 102], Some 9218868437227405312%Z)] in
